@@ -85,4 +85,13 @@ PROPS = {
         "level_note": "Trusted: Lean kernel; ABI specification transcribed from the Solidity documentation (Base/Abi.lean, fragment: static words, bytes/string, array of static tuples); go-ethereum Pack modelled by the same function and differential-tested; Solidity compiler output not executed (no solc/EVM in the sandbox); keccak/sha256/ECDSA are parameters in theorems (executable Keccak only in the driver).",
         "trusted": ["Base/Abi.lean = ABI spec fragment", "extract/sol_scan.py (regular scanner over three contracts)", "extract/main.go goAbi"],
     },
+    "C12": {
+        "props_module": "LayerModel.Props.C12",
+        "families": [("tally", 6000, 300000), ("ratio", 2000, 50000)],
+        "gen": ["facts", "formulas"],
+        "rule": "tally: inputs in which at least one of users/reporters/holders voted; ratio: every case; distinct = distinct input lines",
+        "level_text": "Tally part of C12 (theorems for every vote distribution): the tally is decided whenever the voting period has ended (ties, zero totals and zero-power groups included), the recorded choice is the strict maximum of the three scaled sums and a tie is invalid, a quorum result is recorded exactly when the accumulated group shares reach 51*10^6 (first without, then with token holders), the new tie rule extends the old one wherever that decided, counterexample theorems for the pre-fix \"no majority\" failure and for the recorded finding (token holders ignored when three groups reach quorum). Ratio is regenerated from the source and tied to the model. Tie: the real TallyVote is run on seeded stores over generated distributions (ties, near-ties, zero totals, counts to 2^62) and compared with the Lean model; an exact-rational specification of the tally runs as monitor on the implementation's results. Lifecycle/vote-accounting parts of C12 are covered by the chain-mode dispute profile when present (see DESIGN.md).",
+        "level_note": "Trusted: Lean kernel; hand-written model Chain/Tally.lean; mock bank keeper supplies total supply; the monitor leaves differences below 10^-5 of a group weight (rounding of LegacyDec and TruncateInt) undecided. Partial: lifecycle transitions, one-vote-per-address, vote-power sources are not yet theorems.",
+        "trusted": ["model Chain/Tally.lean written by hand", "seeded dispute store + mock bank keeper in the tally family"],
+    },
 }
